@@ -80,11 +80,19 @@ func newTokenizer(kind string) tokzr {
 		t.SetNumberState(hs)
 		t.SetCharacterState('0', '9', hs)
 		return t
-	case strings.HasPrefix(kind, "C:"), strings.HasPrefix(kind, "D:"):
+	case strings.HasPrefix(kind, "C:"), strings.HasPrefix(kind, "D:"), strings.HasPrefix(kind, "E:"):
 		// the same configuration reached through another history of setter calls
 		p := strings.Split(kind, ":")
 		t := csv.NewCsvTokenizer()
 		if kind[0] == 'C' {
+			t.SetFieldSeparators(parseRunes(p[1]))
+			t.SetQuoteSymbols(parseRunes(p[2]))
+		} else if kind[0] == 'E' {
+			// an earlier configuration with separators and quotes above U+00FF, used once, then the final one
+			t.SetQuoteSymbols([]rune{0x201c, 0x416})
+			t.SetFieldSeparators([]rune{0x4e16, 0x100, 0x2028})
+			t.TokenizeBuffer("a\u4e16b\u201cc\u201c")
+			t.SetQuoteSymbols([]rune{})
 			t.SetFieldSeparators(parseRunes(p[1]))
 			t.SetQuoteSymbols(parseRunes(p[2]))
 		} else {
